@@ -48,6 +48,12 @@ CaseU == T("case", <<>>, <<>>, <<>>, TRUE, All)
 CaseL == T("case", <<>>, <<>>, <<>>, FALSE, Exc(<<fC>>))
 SetV == T("setvalue", <<>>, <<>>, <<115,118>>, FALSE, Inc(<<fA, <<102,77>>, <<102,70>>>>))
 SetVId == T("setvalue", <<>>, <<>>, <<115,118>>, FALSE, Inc(<<nosuch>>))
+n1 == <<110,49>> n2 == <<110,50>> n3 == <<110,51>> fD == <<102,68>> fY == <<102,89>>
+ToNum == T("convtype", <<>>, <<>>, <<>>, TRUE, Inc(<<n1, n2, n3, <<110,52>>, fY, fD, fA>>))
+ToNumOne == T("convtype", <<>>, <<>>, <<>>, TRUE, Inc(<<n1, n2>>))
+ToStr == T("convtype", <<>>, <<>>, <<>>, FALSE, All)
+ToStrScoped == T("convtype", <<>>, <<>>, <<>>, FALSE, Exc(<<fD>>))
+ConvId == T("convtype", <<>>, <<>>, <<>>, TRUE, Inc(<<nosuch>>))
 a_MD5 == <<77,68,53>> a_SHA1 == <<83,72,65,49>> t_File == <<70,105,108,101>>
 Hashes == T("hashes", <<(<<a_MD5, <<>>>>), (<<a_SHA1, <<>>>>)>>, t_File, <<>>, FALSE, All)
 HashesDrop == T("hashes", <<(<<a_MD5, <<>>>>)>>, <<104,46>>, <<>>, TRUE, All)
@@ -57,8 +63,9 @@ Lists == {<<Fmap1>>, <<Fmap1n>>, <<FmapKw>>, <<FmapRef>>, <<FmapScoped>>, <<Fpre
           <<Add1>>, <<AddNeg>>, <<Repl>>, <<ReplScoped>>, <<MapS>>, <<CaseU>>, <<CaseL>>, <<SetV>>, <<Nest>>,
           <<Fmap1, T("fmap", <<(<<x1, <<x2>>>>)>>, <<>>, <<>>, FALSE, All)>>, <<Fsuf, T("drop", <<>>, <<>>, <<>>, FALSE, Inc(<<fB \o <<46,115>>>>))>>,
           <<Add1, Fpre>>, <<Fmap1n, Repl>>, <<Repl, MapS>>, <<FmapKw, CaseU>>, <<Nest, Add1>>,
-          <<Hashes>>, <<HashesDrop>>, <<Hashes, Fsuf>>, <<Hashes, CaseU>>}
-Identities == {<<HashesId>>, <<FmapId>>, <<FpreMapId>>, <<DropId>>, <<ReplId>>, <<MapSId>>, <<SetVId>>,
+          <<Hashes>>, <<HashesDrop>>, <<Hashes, Fsuf>>, <<Hashes, CaseU>>,
+          <<ToNum>>, <<ToNumOne>>, <<ToStr>>, <<ToStrScoped>>, <<ToStr, Repl>>, <<ToNumOne, ToStr>>, <<Fmap1, ToStr>>}
+Identities == {<<ConvId>>, <<HashesId>>, <<FmapId>>, <<FpreMapId>>, <<DropId>>, <<ReplId>>, <<MapSId>>, <<SetVId>>,
                <<[T("nest", <<>>, <<>>, <<>>, FALSE, All) EXCEPT !.sub = <<FmapId, ReplId>>]>>}
 C_sel1 == N_sel1
 C_notsel1 == S_not \o <<32>> \o N_sel1
